@@ -145,6 +145,13 @@ static inline double avm_sqrt(double x) { return __CPROVER_uninterpreted_sqrt(x,
 
 /* ghost: number of elements of the object handed to gather / scatter (set by the harness, read by the contract) */
 size_t avm_len;
+/* ghost: address of the harness-owned memory object modulo 64.  CBMC objects have no addresses, so alignment-requiring
+ * instructions (movdqa/movaps, aligned masked moves) check (base address mod 64 + offset) of that object; the harness of
+ * an UNALIGNED load/store/gather/scatter leaves the base misaligned by any multiple of the element size, the harness of an
+ * aligned_* form sets it to 0.  Other objects (alignas-declared locals) are taken to be suitably aligned. */
+const void* avm_mem_obj;
+size_t avm_mem_mod;
+#define AVM_ADDR_MOD(p) (((avm_mem_obj != 0 && __CPROVER_same_object((const void*)(p), avm_mem_obj)) ? avm_mem_mod : (size_t)0) + (size_t)__CPROVER_POINTER_OFFSET(p))
 
 _Bool nondet_bool(void); uint8_t nondet_u8(void); uint16_t nondet_u16(void); uint32_t nondet_u32(void); uint64_t nondet_u64(void);
 int8_t nondet_i8(void); int16_t nondet_i16(void); int32_t nondet_i32(void); int64_t nondet_i64(void);
